@@ -81,6 +81,26 @@ func (a *Analysis) Run() {
 			a.callees[e.Site] = appendUniq(a.callees[e.Site], e.Callee.Func)
 		}
 	}
+	// A call of a function value in an entered (library) function: the call graph matches every
+	// function of that signature whose value flows anywhere type-compatible, including closures
+	// private to the standard library (func() error steps vs os/exec internals). A function value
+	// called by library code was made by library code (or go-dicom): when the site has such
+	// candidates, the others are dropped.
+	for site, cs := range a.callees {
+		cc := site.Common()
+		if cc.IsInvoke() || cc.StaticCallee() != nil || site.Parent() == nil || !a.cfg.Enter(site.Parent()) {
+			continue
+		}
+		var own []*ssa.Function
+		for _, f := range cs {
+			if a.cfg.Enter(f) {
+				own = append(own, f)
+			}
+		}
+		if len(own) > 0 && len(own) < len(cs) {
+			a.callees[site] = own
+		}
+	}
 	for _, r := range a.cfg.Roots {
 		g.visit(r.Fn, r.Ctx)
 		for i, o := range r.Params {
@@ -388,10 +408,12 @@ func (c *fc) bindCall(site ssa.CallInstruction, callee *ssa.Function, args []ssa
 	if s, ok := summaries[name]; ok {
 		a.ExtCalls[name]++
 		s(c, site, callee, args)
+		c.bindCallbacks(args)
 		return
 	}
 	if callee.Blocks == nil || !a.cfg.Enter(callee) {
 		a.ExtCalls[name]++
+		c.bindCallbacks(args)
 		if callee.Name() == "init" && callee.Signature.Recv() == nil && callee.Signature.Params().Len() == 0 {
 			return // initialiser of an imported (standard library) package
 		}
@@ -411,6 +433,39 @@ func (c *fc) bindCall(site ssa.CallInstruction, callee *ssa.Function, args []ssa
 	for i := 0; i < res.Len(); i++ {
 		if dst, ok := c.resultBase(site, res.Len(), i); ok {
 			a.copyAgg(dst, c.retBase(callee, i), res.At(i).Type())
+		}
+	}
+}
+
+// bindCallbacks: a function literal / named function handed to an un-entered callee (sort.Slice,
+// slices.EqualFunc, slices.SortFunc, ...) is called back by it with elements of the slices passed
+// alongside: the callback is analysed, and its parameters receive those elements.
+func (c *fc) bindCallbacks(args []ssa.Value) {
+	a := c.a
+	for _, fv := range args {
+		var fn *ssa.Function
+		switch x := fv.(type) {
+		case *ssa.MakeClosure:
+			fn, _ = x.Fn.(*ssa.Function)
+		case *ssa.Function:
+			fn = x
+		}
+		if fn == nil || fn.Blocks == nil || !a.cfg.Enter(fn) {
+			continue
+		}
+		c.g.visit(fn, c.ctx)
+		for _, p := range fn.Params {
+			lv := a.leaves(p.Type())
+			if len(lv) == 0 {
+				continue
+			}
+			for _, other := range args {
+				sl, ok := other.Type().Underlying().(*types.Slice)
+				if !ok || !types.Identical(sl.Elem(), p.Type()) {
+					continue
+				}
+				a.addComplex(c.node(other), complexC{kind: cLoad, other: a.valBase(p, c.ctx), leaves: lv, suffix: "[*]"})
+			}
 		}
 	}
 }
@@ -444,7 +499,8 @@ func (c *fc) freshResults(site ssa.CallInstruction, callee *ssa.Function) {
 var purePkgs = map[string]bool{
 	"fmt": true, "errors": true, "math": true, "math/bits": true, "strconv": true, "strings": true,
 	"unicode": true, "unicode/utf8": true, "image": true, "image/color": true, "image/jpeg": true,
-	"testing": true,
+	"testing": true, "cmp": true, "hash/crc32": true, "hash/adler32": true, "hash/fnv": true, "hash/maphash": true,
+	"unicode/utf16": true, "math/cmplx": true,
 }
 
 func isPureExternal(f *ssa.Function) bool {
